@@ -9,6 +9,8 @@ import (
 	"testing"
 
 	"github.com/julienschmidt/httprouter"
+	"google.golang.org/grpc/codes"
+	"google.golang.org/grpc/status"
 
 	"github.com/ory/keto/internal/driver"
 	"github.com/ory/keto/internal/driver/config"
@@ -70,4 +72,33 @@ func TestVerifC13NegativePageSize(t *testing.T) {
 			t.Errorf("DEFECT: gRPC ListRelationTuples accepted page_size -3")
 		}
 	}()
+}
+
+// C07 "a malformed token is rejected as a client error" / C13 "malformed requests get a 4xx /
+// InvalidArgument style answer rather than a 5xx / Internal one":
+// obligations (*handler).getRelations/post.client-error-for-malformed-token and
+// (*handler).ListRelationTuples/post.client-error-for-malformed-token
+func TestVerifC13MalformedPageTokenIsAServerError(t *testing.T) {
+	ctx := context.Background()
+	reg := driver.NewSqliteTestRegistry(t, false)
+	if err := reg.Config(ctx).Set(config.KeyNamespaces, []*namespace.Namespace{{Name: "n"}}); err != nil {
+		t.Fatal(err)
+	}
+	r := httprouter.New()
+	h := relationtuple.NewHandler(reg)
+	h.RegisterReadRoutes(&x.ReadRouter{Router: r})
+	code, p := vfServe(t, r, http.MethodGet, relationtuple.ReadRouteBase+"?namespace=n&page_token=not-a-token", "")
+	if p != nil {
+		t.Fatalf("panic: %v", p)
+	}
+	if code < 400 || code >= 500 {
+		t.Errorf("DEFECT: GET %s?namespace=n&page_token=not-a-token answered %d, want a 4xx", relationtuple.ReadRouteBase, code)
+	}
+	ns := "n"
+	_, err := h.ListRelationTuples(ctx, &rts.ListRelationTuplesRequest{RelationQuery: &rts.RelationQuery{Namespace: &ns}, PageToken: "not-a-token"})
+	if err == nil {
+		t.Errorf("DEFECT: gRPC ListRelationTuples accepted the page token \"not-a-token\"")
+	} else if c := status.Code(err); c == codes.Unknown || c == codes.Internal {
+		t.Errorf("DEFECT: gRPC ListRelationTuples with page token \"not-a-token\" answered code %v, want InvalidArgument", c)
+	}
 }
